@@ -37,6 +37,7 @@ def main():
     prop = args.prop.upper()
     seed = int(os.environ.get("VERIF_SEED", "1") or "1")
 
+    os.environ["VERIF_TIER"] = args.tier
     core.setup_import_path()
     try:
         mod = importlib.import_module(f"checks.{prop.lower()}")
